@@ -403,15 +403,19 @@ Local Transparent minute ten_s arm_delay renewal_time.
 
 Example renew_by_halflife_nonvacuous :
   exists s dl, run (init 1000 true) [ERun; EFetchOk (mkCert 0 0 (3600 * second)); EAdvance (1800 * second)]
-               = Some s /\ s_pc s = PArmed dl KMain /\ dl <= s_now s /\ s_renew s <= s_now s.
-Proof. eexists; eexists. split; [vm_compute; reflexivity|]. vm_compute. repeat split; congruence. Qed.
+               = Some s /\ s_pc s = PArmed dl KMain /\ (dl <=? s_now s) = true /\ (s_renew s <=? s_now s) = true.
+Proof.
+  eexists; eexists. split; [vm_compute; reflexivity|].
+  split; [vm_compute; reflexivity|]. split; vm_compute; reflexivity.
+Qed.
 
 Example retry_10s_nonvacuous :
   exists s dl, run (init 1000 true) [ERun; EFetchOk (mkCert 0 0 (3600 * second)); EAdvance (1800 * second);
                                      EWake; EFetchErr; EAdvance ten_s]
-               = Some s /\ s_pc s = PArmed dl KRetry /\ dl <= s_now s /\
+               = Some s /\ s_pc s = PArmed dl KRetry /\ (dl <=? s_now s) = true /\
                exists s1 s2, step s EWake = Some s1 /\ step s1 EWake = Some s2 /\ s_pc s2 = PFetch.
 Proof.
   eexists; eexists. split; [vm_compute; reflexivity|]. split; [vm_compute; reflexivity|].
-  split; [vm_compute; congruence|]. eexists; eexists. vm_compute. repeat split.
+  split; [vm_compute; reflexivity|]. eexists; eexists.
+  split; [vm_compute; reflexivity|]. split; vm_compute; reflexivity.
 Qed.
